@@ -13,6 +13,7 @@ import Driver.DbgText
 import Driver.Edit
 import Driver.CmdProto
 import Driver.Asm
+import Driver.Enc
 open Lace Lace.Driver
 
 /-- `X02 stackOn minimal instr <machine> inp-hex`
@@ -81,6 +82,7 @@ def handle (line : String) : String :=
   | "R14" :: rest => handleR14 rest
   | "A01" :: rest => handleA01 rest
   | "A19" :: rest => handleA19 rest
+  | "P01" :: rest => Lace.Driver.Enc.handleP01 rest
   | _ => "bad-request"
 
 partial def loop (h : IO.FS.Stream) (out : IO.FS.Stream) : IO Unit := do
